@@ -38,9 +38,7 @@ medium module nand negedge nmos nor noshowcancelled not notif0 notif1 or output 
 pull0 pull1 pulldown pullup pulsestyle_onevent pulsestyle_ondetect rcmos real realtime reg release repeat rnmos
 rpmos rtran rtranif0 rtranif1 scalared showcancelled signed small specify specparam strong0 strong1 supply0
 supply1 table task time tran tranif0 tranif1 tri tri0 tri1 triand trior trireg unsigned use vectored wait wand
-weak0 weak1 while wire wor xnor xor
-logic always_comb always_ff always_latch bit byte int shortint longint typedef enum struct union package endpackage
-interface endinterface import unique priority return break continue`) {
+weak0 weak1 while wire wor xnor xor`) {
 		keywords[k] = true
 	}
 }
